@@ -31,7 +31,7 @@ REQUIRED = [
     # component arrays (.x .y .z .w / .r .g .b .a / .min .max): intended behaviour + refutation for the getters as first examined
     "component_refines", "component_protected", "component_asWritten_drops_mask",
     "component_asWritten_empty_mask_reads_out_of_bounds",
-    "array2d_item_refines", "array2d_getslice_forward_refines", "array2d_forward_slices_accepted", "matrix_row_refines",
+    "array2d_item_refines", "array2d_getslice_forward_refines", "array2d_forward_slices_accepted", "array2d_setitem_int_refines", "matrix_row_refines",
     "varray_getitem_refines", "varray_size_refines", "varray_getslice_refines", "varray_forward_slices_accepted",
     "varray_getmask_refines", "varray_readonly_raises",
     "string_table_bijection", "string_table_intern", "string_array_reads_last_stored", "string_array_create_repr",
@@ -832,7 +832,7 @@ def lifetimes(chk):
 
         def vg(c):
             return c, lib.sh(["valgrind", "--error-exitcode=9", "-q", "--undef-value-errors=no", pyimath.PYTHON, script, "run", c[0], str(c[1])],
-                             env=pyimath.env({"PYTHONMALLOC": "malloc"}), timeout=900)
+                             env=pyimath.env({"PYTHONMALLOC": "malloc", "C19_LIGHT_CHURN": "1"}), timeout=900)
         with ThreadPoolExecutor(lib.NCPU) as ex:
             for c, (rc, o) in ex.map(vg, sub):
                 if rc != 0:
@@ -866,20 +866,39 @@ def lifetimes(chk):
 
 def run(chk):
     chk.trusted = ["Lean 4.33 kernel; axioms propext / Classical.choice / Quot.sound at most (`decide` for the witness programs, no native_decide)",
-                   "hand models Model/FixedArray.lean, FixedArray2D.lean, StringTable.lean, BufferProtocol.lean — tied to the current tree by "
-                   "exhaustive + random correspondence against the real imath module (harness/py/c19_harness.py)",
-                   "regex reader of PyImathFixedArrayTraits.h (buffer traits)", "cmake/ninja/g++ building PyImath, CPython 3.11, Boost.Python 1.83",
-                   "the specification executor (plain Python lists, CPython's own slicing) and Spec/PyList.lean (validated against CPython)"]
-    chk.assumptions = ["Spec/PyList.lean states Python list indexing/slicing and the mask operations correctly (checked against CPython at small scope)",
-                       "refinement theorems for writes assume the right-hand side / mask lives in another allocation (aliased cases are outside the "
-                       "quantifier, as list semantics evaluate the right-hand side first; model and implementation are still compared on them)",
-                       "element values are small integers (no int32 wrap-around in +=)",
-                       "view LIFETIMES are observed (native values, valgrind), not proved"]
+                   "hand models Model/FixedArray.lean (+ component arrays compView), FixedArray2D.lean, FixedVArray.lean, StringTable.lean, "
+                   "BufferProtocol.lean (sources with shape / strides / offset) — tied to the current tree by exhaustive + random "
+                   "correspondence against the real imath module (harness/py/c19_harness.py); the driver executes the model functions the "
+                   "theorems are about (`step` for the 16 statements; the 2-D / matrix / VArray / string / component ops by direct calls)",
+                   "CPython's PyBuffer_ToContiguous / memoryview (the strided copy and the reference `tobytes()` of a source view)",
+                   "regex reader of PyImathFixedArrayTraits.h (model of getbuffer only; the exported views are ALSO compared with an "
+                   "expectation derived from the class name alone)", "cmake/ninja/g++ building PyImath, CPython 3.11, Boost.Python 1.83",
+                   "the specification executor (plain Python lists / nested lists, CPython's own slicing) and Spec/PyList.lean (validated "
+                   "against CPython)"]
+    chk.assumptions = ["Spec/PyList.lean states Python list indexing/slicing and the mask operations correctly (checked against CPython at small "
+                       "scope; maskPositions / select characterised independently: maskPositions_spec, maskPositions_sorted, select_eq_zip_filter)",
+                       "refinement theorems for writes assume the right-hand side / mask lives in another allocation (aliased cases are outside "
+                       "the quantifier, as list semantics evaluate the right-hand side first; model and implementation are still compared on "
+                       "them, and no_oob_current covers them: no aliasing hypothesis)",
+                       "no_oob_current / step_preserves_WF: allocation requests fit Py_ssize_t (OpOK); the invariant is 'dense array or masked "
+                       "reference of one' — what the 16 statements can build; component arrays, matrix rows (strided views) are outside `Op` "
+                       "and have their own well-formedness theorems (component_refines, matrix_row_refines)",
+                       "element values are small integers (no int32 wrap-around in +=); rows of V2 element type grown by `size[...] = k` are "
+                       "uninitialised in C++ (the harness zero-fills them before comparing)",
+                       "FixedVArray / FixedArray2D / FixedMatrix: backward slices are outside the property's quantifier (model = real is still "
+                       "compared on them)", "view LIFETIMES are observed (native values with same-size reallocation, valgrind), not proved"]
     chk.rule = ("exhaustive: lengths 0..6 x every int index in [-8,8] x every slice start/stop in {None}+[-8,8], step in [-3,3]\\{0}+{None} "
                 "(get, scalar set, vector set with right and wrong lengths) x every 0/1 mask for lengths <= 5 x masked-reference slices, masks on "
-                "masked references, read-only protection through array / masked reference / handle copy, converting constructor; a reduced "
-                "scope for every other FixedArray class found by introspection; FixedArray2D / FixedMatrix per dimension; random op sequences "
-                "(seeded) with shrinking; corpus first.  non-trivial = programs with at least one operation after allocation")
+                "masked references, read-only protection through array / masked reference / handle copy, converting + fill constructors; a "
+                "reduced scope for every other FixedArray class found by introspection; component arrays (.x .y .z .w / .r .g .b .a / "
+                "quaternion / box .min .max) of all 28 vector classes: every component x every mask x reads, writes, in-place ops, read-only, "
+                "element references; FixedArray2D (5 classes) / FixedMatrix (3 classes) per dimension incl. 1-D right-hand sides through masks, "
+                "ifelse, len, constructors; FixedVArray (4 classes): every int index, slice in [-5,5], mask, row / element / size reads and "
+                "the 8 write paths through dense and masked views with non-trivial start/step; string arrays with several tables (slice / "
+                "mask / array assignment, ==, slices, default ctor) for StringArray and WstringArray; ...ArrayFromBuffer on contiguous, "
+                "strided, reversed, 2-D row-sliced, imath-component and bytes sources; exported buffers against a class-name expectation "
+                "with contents; random op sequences (seeded) with shrinking; corpus first.  non-trivial = programs with at least one "
+                "operation after allocation")
     ok, out = pyimath.build()
     chk.oblige("build:pyimath(current tree)", "build", ok, None if ok else out[-800:])
     if not ok:
